@@ -328,6 +328,7 @@ pub struct State {
     pub(crate) precision_reads: u64,
     pub(crate) monitor: Option<Arc<dyn Monitor>>,
     pub(crate) pending_invariant: Option<String>,
+    pub(crate) trace: bool,
 }
 
 pub(crate) enum Step<R> {
@@ -397,6 +398,9 @@ impl State {
         let seq = self.events.len() as u32;
         let vc = self.threads[tid].vc;
         let e = Event { seq, tid: tid as u8, vt: self.clock.now, kind, vc };
+        if self.trace {
+            eprintln!("EV {seq} t{tid} {kind:?}");
+        }
         if let Some(m) = &self.monitor {
             if let Some(msg) = m.on_event(&e) {
                 if self.pending_invariant.is_none() {
@@ -917,6 +921,7 @@ pub fn run(cfg: RunConfig, main: Box<dyn FnOnce() + Send>) -> RunResult {
         precision_reads: 0,
         monitor: cfg.monitor.clone(),
         pending_invariant: None,
+        trace: std::env::var_os("DSIM_TRACE").is_some(),
     };
     const F: AtomicBool = AtomicBool::new(false);
     let sim = Arc::new(Sim {
